@@ -1,3 +1,4 @@
+import collections
 import copy
 from kvfile import KVFile
 
@@ -61,7 +62,10 @@ def duplicate(
         for resource in package:
             if resource.res.name == source_:
                 db = KVFile()
-                yield saver(resource, db, batch_size)
+                saved = saver(resource, db, batch_size)
+                yield saved
+                # the copy is a copy of the whole resource, also when whatever comes next stopped reading it early
+                collections.deque(saved, maxlen=0)
                 if duplicate_to_end:
                     dbs.append(db)
                 else:
